@@ -119,9 +119,35 @@ def check_engine(case, ctx: Ctx):
                         cls_count[kind] = cls_count.get(kind, 0) + 1
                         if in_win and kind != "empty" and ((i0 < j1 and j0 < i1) or cs < rows_px):
                             n_nt += 1
-        if symmetric:
-            # pixel form (as_pixels) uses the direct engine on symmetric data too
-            pass
+    # ---- the lazy output forms of an engine (dask.delayed chunks, dask frame) describe the same values, also when
+    # ---- the chunks of two queries - same window, another matrix / another chunk size - are computed in ONE call
+    if n >= 2:
+        import dask
+
+        grp2 = dict(grp, count=(grp["count"] + 1000).astype(np.int32))
+        reader2 = CSRReader(grp2, off)
+        F2 = model.dense([[r[0], r[1], r[2] + 1000] for r in rows], n, symmetric, 0, dtype=np.int64)
+
+        def assemble(parts, bbox):
+            a = np.zeros((bbox[1] - bbox[0], bbox[3] - bbox[2]), dtype=np.int64)
+            for d_ in parts:
+                a[d_["bin1_id"] - bbox[0], d_["bin2_id"] - bbox[2]] += d_["count"]
+            return a
+
+        for bbox in ((0, n, 0, n), (n // 3, n, 0, max(1, (2 * n) // 3))):
+            e1 = Engine(reader, "count", bbox, case["chunksizes"][0])
+            e2 = Engine(reader2, "count", bbox, case["chunksizes"][-1])
+            d1 = call("engine.to_delayed()", e1.to_delayed)
+            d2 = call("engine.to_delayed() (second matrix)", e2.to_delayed)
+            res = call("dask.compute over the chunks of two queries", lambda: dask.compute(*d1, *d2, scheduler="synchronous"))
+            a1, a2 = assemble(res[:len(d1)], bbox), assemble(res[len(d1):], bbox)
+            check(np.array_equal(a1, F[bbox[0]:bbox[1], bbox[2]:bbox[3]]),
+                  lambda: f"{Engine.__name__}{bbox}: delayed chunks computed together with another query's give {a1.tolist()}, want {F[bbox[0]:bbox[1], bbox[2]:bbox[3]].tolist()}")
+            check(np.array_equal(a2, F2[bbox[0]:bbox[1], bbox[2]:bbox[3]]),
+                  lambda: f"{Engine.__name__}{bbox}: delayed chunks of the second matrix give {a2.tolist()}, want {F2[bbox[0]:bbox[1], bbox[2]:bbox[3]].tolist()}")
+            # (to_dask_frame() is not exercised: with the dask installed here it fails on the unchanged tree - the legacy
+            # dask DataFrame constructor it uses no longer exists - and no property speaks of it)
+            n_eval += 2
     for k, v in cls_count.items():
         ctx.classes["win-" + k] += v
     ctx.record(case, n_nt > 0, ["engine", "engine-sym" if symmetric else "engine-square", f"engine-n={n}"],
